@@ -92,7 +92,11 @@ def _finder_unit():
 
 
 def units():
-    return [_unit(v) for v in ALL_VIEWS] + [_finder_unit()]
+    from pyvc.api import borrow
+    from props import c20
+    # the covering of the text by PLSSChunker's blocks and the re-attachment of unused blocks by rebuild_sec_within are callee
+    # contracts of this property (a block that the chunker loses, or that rebuild_sec_within drops, is text silently dropped)
+    return [_unit(v) for v in ALL_VIEWS] + [_finder_unit()] + borrow(c20._rebuild_units() + c20._chunker_units(), 'C04')
 
 
 # ======================================================================================================================
